@@ -2,7 +2,7 @@
 import solvercheck, framework
 PID = "C05"
 MODULE = "MysticVerif.Props.Solve"
-THEOREMS = ["MysticVerif.C05.no_step_when_stopped", "MysticVerif.C05.step_ran_only_if_not_stopped", "MysticVerif.C05.message_truthful", "MysticVerif.C05.step_message_truthful", "MysticVerif.C05.gens_le_maxiter", "MysticVerif.C05.gens_le_maxiter_run", "MysticVerif.C05.new_limits_from_call", "MysticVerif.C05.total_limits", "MysticVerif.C05.resolve_maxiter_isVal", "MysticVerif.C05.solve_returns", "MysticVerif.C05.evals_overshoot_lt_one_step", "MysticVerif.C05.warnflag_truthful", "MysticVerif.C05.warnflag_iff_limit_message", "MysticVerif.SolveProps.solve_always_returns", "MysticVerif.SolveProps.solve_message_truthful", "MysticVerif.SolveProps.solve_state_is_open_loop"]
+THEOREMS = ["MysticVerif.C05.no_step_when_stopped", "MysticVerif.C05.step_ran_only_if_not_stopped", "MysticVerif.C05.message_truthful", "MysticVerif.C05.step_message_truthful", "MysticVerif.C05.gens_le_maxiter", "MysticVerif.C05.gens_le_maxiter_run", "MysticVerif.C05.new_limits_from_call", "MysticVerif.C05.total_limits", "MysticVerif.C05.resolve_maxiter_isVal", "MysticVerif.C05.solve_returns", "MysticVerif.C05.evals_overshoot_lt_one_step", "MysticVerif.C05.warnflag_truthful", "MysticVerif.C05.warnflag_iff_limit_message", "MysticVerif.SolveProps.solve_always_returns", "MysticVerif.SolveProps.solve_message_truthful", "MysticVerif.SolveProps.solve_state_is_open_loop", "MysticVerif.C05.signal_exit_iff", "MysticVerif.C05.no_step_after_signal_exit"]
 
 
 def run_shard(pid, seed, shard, ncases, tier, extra):
